@@ -178,41 +178,47 @@ def oracle_seq(rc):
         order = [i for _s, i in sorted(offers)]
         if order != sorted(order):
             raise Violation("registration_order", "destinations were called in order %s for one message" % order)
-    # 3. reports: after each non-report x, exactly one report per raising offer, in order; none for reports
-    i = 0
-    while i < len(S):
-        x = S[i]
+    # 3. reports: exactly one per raising offer of a non-report, none for reports.  The property does not
+    #    say *when* a report is emitted, only that it is; so reports are matched by content (they name the
+    #    affected message by task_uuid/task_level and carry the exception's class path and text), anywhere
+    #    after the message they are about.
+    reports = [(i, r) for i, r in enumerate(S) if is_report(r.msg)]
+    used = set()
+    for i, x in enumerate(S):
         if is_report(x.msg):
-            raise Violation(("report_count", {"dir": "more"}),
-                            "an unexpected eliot:destination_failure report: %s" % canon_msg(x.msg)[:500])
+            continue
         raised = []
         for d in rc.all_dests:
             for o in d.records:
                 if o.raised is not None and o.call == x.call and canon_msg(o.msg) == canon_msg(x.msg):
                     raised.append((o.seq, o.raised))
         raised.sort(key=lambda t: t[0])
-        j = i + 1
+        key = "\"'task_level'\": '%s'" % (x.msg["task_level"],)
+        uid = "\"'task_uuid'\": \"'%s'\"" % (x.msg["task_uuid"],)
+        about_x = [(j, r) for j, r in reports if j > i and j not in used and isinstance(r.msg.get("message"), str)
+                   and key in r.msg["message"] and uid in r.msg["message"]]
         for _seq, exc in raised:
-            if j >= len(S) or not is_report(S[j].msg):
+            hit = None
+            for j, r in about_x:
+                if j not in used and r.msg.get("exception") == class_path(type(exc)) and \
+                        r.msg.get("reason") == exc_text(exc):
+                    hit = j
+                    break
+            if hit is None:
+                loose = [r.msg for j, r in about_x if j not in used]
+                if loose:
+                    raise Violation("report_content", "the report about message %r says %r / %r, the destination "
+                                    "raised %s: %r" % (x.call[1], loose[0].get("exception"), loose[0].get("reason"),
+                                                       class_path(type(exc)), exc_text(exc)))
                 raise Violation(("report_count", {"dir": "fewer", "exc": type(exc).__name__}),
-                                "%s raised by a destination for message %r was not reported (next message: %s)" % (
-                                    type(exc).__name__, x.call[1], canon_msg(S[j].msg)[:300] if j < len(S) else None))
-            rep = S[j].msg
-            if rep.get("exception") != class_path(type(exc)):
-                raise Violation("report_content", "report says exception=%r for a %s" % (
-                    rep.get("exception"), class_path(type(exc))))
-            if rep.get("reason") != exc_text(exc):
-                raise Violation("report_content", "report says reason=%r, exception text is %r" % (
-                    rep.get("reason"), exc_text(exc)))
-            ren = rep.get("message")
-            key = "\"'task_level'\": '%s'" % (x.msg["task_level"],)
-            uid = "\"'task_uuid'\": \"'%s'\"" % (x.msg["task_uuid"],)
-            if not isinstance(ren, str) or key not in ren or uid not in ren:
-                raise Violation("report_content", "report's rendering %r does not show the affected message %s %s" % (
-                    ren, x.msg["task_uuid"], x.msg["task_level"]))
-            # the report itself may make destinations raise: that must produce nothing
-            j += 1
-        i = j
+                                "%s raised by a destination for message %r was not reported" % (
+                                    type(exc).__name__, x.call[1]))
+            used.add(hit)
+    extra = [r for j, r in reports if j not in used]
+    if extra:
+        raise Violation(("report_count", {"dir": "more"}),
+                        "%d eliot:destination_failure report(s) that no raising offer of a non-report accounts for, "
+                        "e.g. %s" % (len(extra), canon_msg(extra[0].msg)[:400]))
 
 
 def oracle_threads(rc):
